@@ -146,6 +146,10 @@ def _step_opts(rng):
     return o
 
 
+def _sinc(z):
+    return np.sin(z) / z
+
+
 def build_step(nd, step):
     if step['kind'] == 'default':
         return None
@@ -160,6 +164,9 @@ def build(nd, cfg, step_obj='build', wrap=None, form=0):
     default richardson_terms=2 given explicitly, 3 built without full_output and switched on afterwards"""
     st = build_step(nd, cfg['step']) if isinstance(step_obj, str) else step_obj
     cls = cfg.get('cls', 'Derivative')
+    if cls == 'Limit':
+        from numdifftools.limits import Limit
+        return Limit(_sinc, step=st, method=cfg['method'], order=cfg['order'], full_output=True)
     if cls == 'Derivative':
         fun = FUNS[cfg['fun']] if wrap is None else wrap(FUNS[cfg['fun']])
         if form == 1:
@@ -474,6 +481,21 @@ def run_case(case, ctx):
                     ctx.reject('result_differs_from_fresh_interpreter_evaluation', observed=got, expected=_S['refs'][akey],
                                detail=dict(where='shared_step_generator_other_order', config=acfg, extra=dict(ops=case['ops'])),
                                where='shared_step_generator_other_order')
+                    return
+                # ... and a Limit on the same generator instance, right after the derivative objects used it (a step generator is a
+                # step generator: Limit accepts it, and what the derivative objects left in it is none of its business)
+                lcfg = dict(cls='Limit', fun='sinc', method='above', n=None, order=4, step=pool[i]['step'], points=[0.0])
+                lkey = ('share_limit', i)
+                if lkey not in _S['refs']:
+                    _S['refs'][lkey] = fresh_reference(lcfg, 0)
+                    ctx.count('fresh_interpreter_references')
+                got = call(build(nd, lcfg, gen), 0.0)
+                ctx.count('shared_generator_calls')
+                ctx.count('history_calls_compared')
+                if got != _S['refs'][lkey]:
+                    ctx.reject('result_differs_from_fresh_interpreter_evaluation', observed=got, expected=_S['refs'][lkey],
+                               detail=dict(where='limit_on_a_generator_shared_with_derivative_objects', config=lcfg, extra=dict(ops=case['ops'])),
+                               where='limit_on_a_generator_shared_with_derivative_objects')
                     return
             elif name == 'inplace_update':
                 # the caller keeps one array object, evaluates at it, updates it in place and evaluates again (an optimisation
